@@ -370,6 +370,33 @@ class Engine(object):
             r = smt.check_valid(st.pc, cond, timeout_ms=timeout_ms, want_model=False, use_cvc5=False)
         return r.status == "proved"
 
+    def writable(self, st, cont, line=0):
+        """Container (VDict / VList) about to be mutated in state `st`. One created before the latest fork of `st` may be
+        shared with a sibling path: it is copied and every reference in this state (locals, object fields, one level of
+        nesting) is rebound to the copy, so the mutation stays on this path. Inside an inlined call the caller's locals
+        are not reachable from here, so that case is refused rather than modelled wrongly."""
+        from .values import VDict, VList, VTuple
+        if getattr(cont, "born", 0) > getattr(st, "fork_epoch", 0):
+            return cont
+        if self.inline_depth > 0:
+            raise OutOfSubset(f"line {line}: a container that predates a path split is mutated inside an inlined call")
+        new = VDict(cont.d) if isinstance(cont, VDict) else VList(cont.items)
+
+        def swap(v):
+            if v is cont:
+                return new
+            if isinstance(v, (VList, VTuple)) and any(x is cont for x in v.items):
+                v2 = type(v)([new if x is cont else x for x in v.items])
+                return v2
+            if isinstance(v, VDict) and any(x is cont for x in v.d.values()):
+                return VDict({k: (new if x is cont else x) for k, x in v.d.items()})
+            return v
+        for k in list(st.env):
+            st.env[k] = swap(st.env[k])
+        for oid in list(st.objs):
+            st.objs[oid] = {k: swap(v) for k, v in st.objs[oid].items()}
+        return new
+
     def uf(self, name, args, ret):
         f = z3.Function(name, *[a.sort() for a in args], ret)
         self.assume_tag(f"UF:{name}")
